@@ -157,3 +157,55 @@ pub fn sweep() -> (bool, String) {
     } } } } } }
     (false, format!("client ceremonies agree with the request in {n} registration scenarios (each followed by an excluded registration and 4 authentications)"))
 }
+
+/// C09, client side: hashed and pre-hashed PRF inputs through the real `Client::authenticate`.  A pre-hashed input that is not 32 bytes
+/// long is rejected before the authenticator is invoked (no lookup, no user check); a 32-byte pre-hashed input is the salt itself; a
+/// plain input is hashed to SHA-256("WebAuthn PRF" || 0x00 || input); each result is HMAC-SHA-256 under the credential's secret.
+pub fn prf_inputs() -> (bool, String) {
+    use hmac::{Hmac, Mac};
+    use passkey_authenticator::extensions::HmacSecretConfig;
+    use sha2::Digest;
+    fn mac(key: &[u8], msg: &[u8]) -> Vec<u8> { let mut m = Hmac::<sha2::Sha256>::new_from_slice(key).unwrap(); m.update(msg); m.finalize().into_bytes().to_vec() }
+    let origin = url::Url::parse("https://www.example.com").unwrap();
+    let store = Spy { disc: 2, ..Default::default() };
+    let uvd = SpyUv::default();
+    let mut client = Client::new(Authenticator::new(Aaguid::new_empty(), store.clone(), uvd.clone()).hmac_secret(HmacSecretConfig::new_without_uv()));
+    let mut reg = creation(None, false, UserVerificationRequirement::Required, None, None, false, 1);
+    reg.public_key.extensions = Some(AuthenticationExtensionsClientInputs { prf: Some(AuthenticationExtensionsPrfInputs { eval: None, eval_by_credential: None }), ..Default::default() });
+    if let Err(e) = block_on(client.register(&origin, reg, DefaultClientData)) { return (true, format!("setup registration failed: {e:?}")); }
+    let secret = match store.items.lock().unwrap()[0].extensions.hmac_secret.clone() { Some(s) => s.cred_with_uv.clone(), None => return (true, "registration with prf stored no secret".into()) };
+    let mut n = 0;
+    for hashed in [false, true] {
+        for l1 in [0usize, 1, 31, 32, 33, 64] {
+            for l2 in [None, Some(31usize), Some(32), Some(33)] {
+                n += 1;
+                let first: Vec<u8> = (0..l1).map(|k| (k * 3 + 1) as u8).collect();
+                let second: Option<Vec<u8>> = l2.map(|l| (0..l).map(|k| (k * 5 + 2) as u8).collect());
+                let inputs = AuthenticationExtensionsPrfInputs { eval: Some(AuthenticationExtensionsPrfValues { first: first.clone().into(), second: second.clone().map(Into::into) }), eval_by_credential: None };
+                let ext = if hashed { AuthenticationExtensionsClientInputs { prf_already_hashed: Some(inputs), ..Default::default() } } else { AuthenticationExtensionsClientInputs { prf: Some(inputs), ..Default::default() } };
+                let req = CredentialRequestOptions { public_key: PublicKeyCredentialRequestOptions { challenge: vec![8, 9].into(), timeout: None, rp_id: None, allow_credentials: None,
+                    user_verification: UserVerificationRequirement::Required, hints: None, attestation: Default::default(), attestation_formats: None, extensions: Some(ext) } };
+                let (lk0, ask0) = (store.lookups.lock().unwrap().len(), uvd.asked.lock().unwrap().len());
+                let r = block_on(client.authenticate(&origin, req, DefaultClientData));
+                let touched = store.lookups.lock().unwrap().len() != lk0 || uvd.asked.lock().unwrap().len() != ask0;
+                let ctx = format!("{} input of {l1} byte(s), second {l2:?}", if hashed { "pre-hashed" } else { "plain" });
+                let malformed = hashed && (l1 != 32 || l2.is_some_and(|l| l != 32));
+                if malformed {
+                    if r.is_ok() { return (true, format!("{ctx}: a pre-hashed input that is not 32 bytes long was accepted")); }
+                    if touched { return (true, format!("{ctx}: rejected, but only after the authenticator had been invoked")); }
+                    continue;
+                }
+                let out = match r { Ok(a) => a.client_extension_results.prf.and_then(|p| p.results), Err(e) => return (true, format!("{ctx}: well-formed request failed: {e:?}")) };
+                let Some(out) = out else { return (true, format!("{ctx}: no PRF result")) };
+                let salt = |x: &[u8]| -> Vec<u8> { if hashed { x.to_vec() } else { let mut h = sha2::Sha256::new(); h.update(b"WebAuthn PRF"); h.update([0u8]); h.update(x); h.finalize().to_vec() } };
+                if out.first.to_vec() != mac(&secret, &salt(&first)) { return (true, format!("{ctx}: the first result is not HMAC-SHA-256(secret, salt)")); }
+                match (&second, &out.second) {
+                    (Some(s), Some(o)) => if o.to_vec() != mac(&secret, &salt(s)) { return (true, format!("{ctx}: the second result is not HMAC-SHA-256(secret, salt)")); },
+                    (None, Some(_)) => return (true, format!("{ctx}: a second result without a second input")),
+                    _ => {}
+                }
+            }
+        }
+    }
+    (false, format!("{n} PRF requests through the client agree with the statement"))
+}
